@@ -82,7 +82,7 @@ def run_job(job):
     t0 = time.time()
     R = dict(pid=pid, harness=hname, params=params, paths=0, infeasible=0, obligations=0, discharged=0,
              ground=0, nontrivial=0, violations=[], inconclusive=[], solver_s=0.0, queries=0, funcs=[],
-             samples=[], assumed_feasible=0, tiers={}, domain_assumptions=0, replays=0, expected_exc=0)
+             samples=[], assumed_feasible=0, tiers={}, domain_assumptions=0, replays=0, expected_exc=0, max_query_s=0.0, slowest='')
     rec = FuncRecorder()
     first = [True]
     maxpaths = opts.get('maxpaths', 4000)
@@ -196,6 +196,9 @@ def _collect(R, cx, replay_cb=None):
         if ob.get('cached'):
             continue
         R['obligations'] += 1
+        if ob.get('t', 0) and ob['t'] > R['max_query_s']:
+            R['max_query_s'] = ob['t']
+            R['slowest'] = ob['label']
         res = ob['res']
         if ob.get('ground'):
             R['ground'] += 1
